@@ -9,32 +9,38 @@ Open Scope Qc_scope.
 (* ceiling of a rational as an integer *)
 Definition qceil (q : Qc) : Z := (- ((- Qnum (this q)) / Z.pos (Qden (this q))))%Z.
 
-Record event := EV { e_delta : Qc; e_data : list Qc; e_added : Z }.
+Record event {M : addable} := EV { e_delta : Qc; e_data : list M; e_added : Z }.
+Arguments event : clear implicits.
+Arguments EV {M} _ _ _.
+Arguments e_delta {M} _.
+Arguments e_data {M} _.
+Arguments e_added {M} _.
 
 (* start sample of each event: S_i = max (ceil (T_i - 1/2)) a_i, T_i = d_0+...+d_i *)
-Fixpoint starts_from (T : Qc) (evs : list event) : list (Z * list Qc) :=
+Fixpoint starts_from {M : addable} (T : Qc) (evs : list (event M)) : list (Z * list M) :=
   match evs with
   | [] => []
   | e :: r => let T' := T + e_delta e in
               (Z.max (qceil (T' - half)) (e_added e), e_data e) :: starts_from T' r
   end.
-Definition starts (evs : list event) := starts_from 0 evs.
+Definition starts {M : addable} (evs : list (event M)) := starts_from 0 evs.
 
 (* item of an event due at sample n, if any *)
-Definition due (n : Z) (sd : Z * list Qc) : option Qc :=
+Definition due {M : addable} (n : Z) (sd : Z * list M) : option M :=
   let '(s0, data) := sd in
   if (s0 <=? n)%Z then nth_error data (Z.to_nat (n - s0)) else None.
 
-Definition out_at (zero : Qc) (evs : list event) (n : Z) : Qc :=
-  fold_left (fun acc sd => match due n sd with Some x => acc + x | None => acc end) (starts evs) zero.
+(* zero plus, IN THE ORDER the events were added, the items due at n (the addition need not be commutative) *)
+Definition out_at {M : addable} (zero : M) (evs : list (event M)) (n : Z) : M :=
+  fold_left (fun acc sd => match due n sd with Some x => madd M acc x | None => acc end) (starts evs) zero.
 
 (* the mixer is over at n when every event has ended by n (ends at S_i + len_i) *)
-Definition over_at (evs : list event) (n : Z) : bool :=
+Definition over_at {M : addable} (evs : list (event M)) (n : Z) : bool :=
   forallb (fun sd => (fst sd + Z.of_nat (length (snd sd)) <=? n)%Z) (starts evs).
 
 (* abstract run over a history: (events so far, outputs so far, finished) *)
-Fixpoint spec_run (keep : bool) (zero : Qc) (evs : list event) (n : Z) (done : bool)
-         (ops : list op) : list out :=
+Fixpoint spec_run {M : addable} (keep : bool) (zero : M) (evs : list (event M)) (n : Z) (done : bool)
+         (ops : list (op M)) : list (out M) :=
   match ops with
   | [] => []
   | Add d data :: r =>
